@@ -107,7 +107,10 @@ class Hier:
             todo.extend(self.parent.get(n, []))
         return seen
 
+    ALIASES = {"parser.ParserError": "ParserError", "dateutil.parser.ParserError": "ParserError"}
+
     def norm(self, name: str) -> str:
+        name = self.ALIASES.get(name, name)
         if name in self.parent:
             return name
         short = name.rsplit(".", 1)[-1]
